@@ -435,6 +435,140 @@ _s("fwd_helpers", r"""
         std::printf("fwd_helpers label [%s] [%s]\n", unit_label(typename ForwardDeclareUnitPow<Seconds, -1, 2>::unit_type{}), unit_label(UnitPowerT<Seconds, -1, 2>{}));
 """, must_print=["fwd_helpers pow 1 1 1 1 1 1"])
 
+# ------------------------------------------------------------------------------------------------
+# rep batteries: the same operations instantiated for every built-in rep class.  C20's quantifier
+# asks for "a generated API-surface program per rep class including sub-int reps"; both genuine
+# defects found on the unchanged tree (section 8.2 of DESIGN.md) were of that shape.
+
+REPS = [("std::int8_t", "i8"), ("std::uint8_t", "u8"), ("std::int16_t", "i16"), ("std::uint16_t", "u16"), ("int", "i32"), ("unsigned", "u32"),
+        ("std::int64_t", "i64"), ("std::uint64_t", "u64"), ("float", "f32"), ("double", "f64"), ("long double", "f80")]
+INT_REPS = [r for r in REPS if r[1][0] in "iu"]
+FLOAT_REPS = [r for r in REPS if r[1][0] == "f"]
+
+
+def _inst(fn, reps):
+    return "\n".join('        %s<%s>("%s");' % (fn, t, n) for t, n in reps)
+
+
+_s("rep_arith", _inst("probe_rep_arith", REPS), defs="""template <typename R>
+void probe_rep_arith(const char *rep) {
+    using namespace au;
+    const auto a = seconds(R(12));
+    const auto b = seconds(R(5));
+    const auto sum = a + b;
+    const auto dif = a - b;
+    const auto neg = -b;
+    const auto pos = +b;
+    const auto mul = a * R(2);
+    const auto lmul = R(2) * a;
+    const auto quo = a / R(4);
+    const auto rat = a / b;
+    auto acc = a;
+    acc += b;
+    acc -= seconds(R(2));
+    acc *= R(2);
+    acc /= R(3);
+    std::printf("  rep_arith %s %.17g %.17g %.17g %.17g %.17g %.17g %.17g %.17g %.17g | %zu %zu %zu %zu %zu %zu %zu %zu %zu | %d %d %d %d %d %d\\n", rep,
+                double(sum.in(seconds)), double(dif.in(seconds)), double(neg.in(seconds)), double(pos.in(seconds)), double(mul.in(seconds)),
+                double(lmul.in(seconds)), double(quo.in(seconds)), double(as_raw_number(rat)), double(acc.in(seconds)),
+                sizeof(sum), sizeof(dif), sizeof(neg), sizeof(pos), sizeof(mul), sizeof(lmul), sizeof(quo), sizeof(rat), sizeof(acc),
+                int(a == b), int(a != b), int(a < b), int(a <= b), int(a > b), int(a >= b));
+}
+""")
+
+_s("rep_mod", _inst("probe_rep_mod", INT_REPS), defs="""template <typename R>
+void probe_rep_mod(const char *rep) {
+    using namespace au;
+    const auto a = seconds(R(47));
+    const auto b = seconds(R(5));
+    const auto m = a % b;
+    std::printf("  rep_mod %s %lld %zu %lld\\n", rep, static_cast<long long>(m.in(seconds)), sizeof(m), static_cast<long long>(as_raw_number(integer_quotient(a, b))));
+}
+""")
+
+_s("rep_point", _inst("probe_rep_point", REPS), defs="""template <typename R>
+void probe_rep_point(const char *rep) {
+    using namespace au;
+    const auto p = make_quantity_point<Seconds>(R(40));
+    const auto q = make_quantity_point<Seconds>(R(15));
+    const auto d = p - q;
+    const auto up = q + seconds(R(3));
+    const auto dn = p - seconds(R(3));
+    auto acc = q;
+    acc += seconds(R(7));
+    acc -= seconds(R(2));
+    std::printf("  rep_point %s %.17g %.17g %.17g %.17g | %zu %zu %zu %zu | %d %d %d %d %d %d\\n", rep, double(d.in(seconds)), double(up.in(Seconds{})),
+                double(dn.in(Seconds{})), double(acc.in(Seconds{})), sizeof(d), sizeof(up), sizeof(dn), sizeof(acc),
+                int(p == q), int(p != q), int(p < q), int(p <= q), int(p > q), int(p >= q));
+}
+""")
+
+_s("rep_zero_minmax", _inst("probe_rep_zero_minmax", REPS), defs="""template <typename R>
+void probe_rep_zero_minmax(const char *rep) {
+    using namespace au;
+    const auto a = seconds(R(9));
+    const auto b = seconds(R(4));
+    const auto mn = min(a, b);
+    const auto mx = max(a, b);
+    const auto cl = clamp(a, seconds(R(1)), seconds(R(6)));
+    const Quantity<Seconds, R> z = ZERO;
+    std::printf("  rep_zero_minmax %s %.17g %.17g %.17g %.17g | %zu %zu %zu | %d %d %d %d\\n", rep, double(mn.in(seconds)), double(mx.in(seconds)), double(cl.in(seconds)),
+                double(z.in(seconds)), sizeof(mn), sizeof(mx), sizeof(cl), int(a > ZERO), int(z == ZERO), int(b != ZERO), int(ZERO < b));
+}
+""")
+
+_s("rep_convert", _inst("probe_rep_convert", REPS), defs="""template <typename R>
+void probe_rep_convert(const char *rep) {
+    using namespace au;
+    const auto a = minutes(R(2));
+    const auto as_d = a.template as<double>(seconds);
+    const auto co = a.coerce_as(seconds);
+    const auto co_in = a.template coerce_in<R>(seconds);
+    const auto rc = rep_cast<R>(seconds(90.0));
+    const auto back = rep_cast<double>(a);
+    const QuantityD<Seconds> imp = a;
+    std::printf("  rep_convert %s %.17g %.17g %.17g %.17g %.17g %.17g | %zu %zu %zu | %d %d %d\\n", rep, double(as_d.in(seconds)), double(co.in(seconds)), double(co_in),
+                double(rc.in(seconds)), double(back.in(minutes)), double(imp.in(seconds)), sizeof(co), sizeof(co_in), sizeof(rc),
+                int(is_conversion_lossy(a, seconds)), int(will_conversion_overflow(a, seconds)), int(will_conversion_truncate(seconds(R(90)), minutes)));
+}
+""")
+
+_s("rep_round", _inst("probe_rep_round", REPS), defs="""template <typename R>
+void probe_rep_round(const char *rep) {
+    using namespace au;
+    const auto r = round_as<R>(seconds, milli(seconds)(2600.0));
+    const auto f = floor_as<R>(seconds, milli(seconds)(2600.0));
+    const auto c = ceil_as<R>(seconds, milli(seconds)(2600.0));
+    const auto ri = round_in<R>(seconds, milli(seconds)(7400.0));
+    std::printf("  rep_round %s %.17g %.17g %.17g %.17g | %zu %zu %zu %zu\\n", rep, double(r.in(seconds)), double(f.in(seconds)), double(c.in(seconds)), double(ri),
+                sizeof(r), sizeof(f), sizeof(c), sizeof(ri));
+}
+""")
+
+_s("rep_chrono_limits", _inst("probe_rep_chrono_limits", REPS), defs="""#include <chrono>
+#include <limits>
+template <typename R>
+void probe_rep_chrono_limits(const char *rep) {
+    using namespace au;
+    const auto q = as_quantity(std::chrono::duration<R, std::milli>{R(25)});
+    const std::chrono::duration<R, std::ratio<60>> d = as_chrono_duration(minutes(R(3)));
+    using Q = Quantity<Seconds, R>;
+    std::printf("  rep_chrono_limits %s %.17g [%s] %zu %.17g | %d %d %d\\n", rep, double(q.in(milli(seconds))), unit_label(decltype(q)::unit), sizeof(q), double(d.count()),
+                int(std::numeric_limits<Q>::max().in(seconds) == std::numeric_limits<R>::max()), int(std::numeric_limits<Q>::lowest().in(seconds) == std::numeric_limits<R>::lowest()),
+                int(std::numeric_limits<Q>::is_specialized));
+}
+""")
+
+_s("rep_io", _inst("probe_rep_io", REPS), needs_io=True, defs="""template <typename R>
+void probe_rep_io(const char *rep) {
+    using namespace au;
+    std::ostringstream o;
+    o << seconds(R(65)) << '|' << make_quantity_point<Minutes>(R(3)) << '|' << (seconds(R(8)) / R(2)) << '|' << -milli(seconds)(R(5));
+    std::printf("  rep_io %s %s\\n", rep, o.str().c_str());
+}
+""")
+
+
 def names():
     return sorted(SNIPPETS)
 
@@ -459,6 +593,8 @@ def definitions(probe_cfg, io):
     out = []
     seen = set()
     for s in chosen(probe_cfg):
+        if SNIPPETS[s].get("needs_io") and not io:
+            continue  # its definitions may need <sstream>, which a noio probe does not include
         d = SNIPPETS[s].get("defs")
         if d and d not in seen:
             seen.add(d)
